@@ -21,7 +21,7 @@ CONSTANTS MaxBlocks, Thr
 lvars == <<vars, mvars>>
 
 GenesisUni == [par |-> <<0>>, diff |-> <<1>>, time |-> <<0>>, btx |-> <<<<1>>>>, tin |-> <<<<>>>>,
-               tout |-> <<<<[a |-> 0, v |-> 0]>>>>, vsz |-> <<100>>]
+               tout |-> <<<<[a |-> 0, v |-> 0]>>>>, vsz |-> <<100>>, h |-> <<0>>]
 
 Cfg0 == [net |-> "mainnet", thr |-> Thr, api |-> TRUE, syncing |-> TRUE, gate |-> FALSE, lazy |-> TRUE, burn |-> FALSE,
          fees |-> [ub |-> 0, ur |-> 0, um |-> 0, bal |-> 0, balm |-> 0, pct |-> 0, pctm |-> 0,
@@ -48,7 +48,8 @@ AddBlock(p, txs, newTin, newTout) ==
           btx  |-> Append(uni.btx, txs),
           tin  |-> uni.tin \o newTin,
           tout |-> uni.tout \o newTout,
-          vsz  |-> uni.vsz \o [i \in 1..Len(newTin) |-> 100]]
+          vsz  |-> uni.vsz \o [i \in 1..Len(newTin) |-> 100],
+          h    |-> Append(uni.h, uni.h[p] + 1)]
 
 NextTx == Len(uni.tin) + 1
 
